@@ -306,6 +306,19 @@ def replay(path):
     import offline
     problems = offline.validate(v)
     for p in problems: log('offline re-validation of the recorded history:', p)
+    if v.get('engine') == 'miri':
+        # deterministic: same program seed, run index, interpreter seed and pre-emption rate
+        env = dict(sanit.ENV, CARGO_TARGET_DIR=os.path.join(TARGET, 'miri'), MIRIFLAGS=v['miriflags'])
+        cmd = sanit.miri_cmd(v['profile'], v['seed'], 600000, only=v['run_index'])
+        r = subprocess.run(cmd, cwd=HARNESS, env=env, stdout=subprocess.PIPE, stderr=subprocess.PIPE, text=True)
+        cls = sanit.classify_miri(v['profile'], r.stderr)
+        hit = any(c[0] == v['property'] and c[1] == v['kind'] for c in cls)
+        log('Miri replay (%s): %s' % (v['miriflags'], 'reproduced' if hit else 'not reproduced'))
+        for c in cls: log('  ', c[0], c[1], c[3][:300])
+        return 1 if hit else 0
+    if v.get('engine') in ('asan', 'asan-nohooks', 'tsan', 'memcheck'):
+        log('sanitizer report: see %s; re-run the check with VERIF_ENGINES=%s to look for it again (real-thread schedules are not replayable)' % (v.get('stderr_file'), v['engine'].split('-')[0]))
+        return 0
     dh = build_native()
     if not dh: return 2
     cmd = [dh, '--profile', v['profile'], '--seed', str(v['seed']), '--only-run', str(v['run_index']), '--noise', v.get('noise_family', 'mix'), '--out', os.path.join(BUILD, 'replay.json')]
